@@ -19,6 +19,7 @@ type ref struct {
 	Part string // part name
 	Kind string // pStyle | rStyle | tblStyle
 	Val  string
+	Sdt  bool // the reference sits inside a content control (w:sdtContent)
 }
 
 // styleDef is what the styles part says about one style (the attributes X4 compares).
@@ -159,30 +160,36 @@ func observe(b []byte) (*obs, error) {
 			switch x.Local {
 			case "pStyle", "rStyle", "tblStyle":
 				if v, ok := x.Attr(canon.W, "val"); ok {
-					o.Refs = append(o.Refs, ref{n, x.Local, v})
+					sdt := false
+					for a := x.Parent; a != nil; a = a.Parent {
+						if a.Is(canon.W, "sdtContent") {
+							sdt = true
+						}
+					}
+					o.Refs = append(o.Refs, ref{n, x.Local, v, sdt})
 				}
 			case "numId":
 				// the numbering id of a list paragraph: w:p/w:pPr/w:numPr/w:numId
 				if x.Parent.Is(canon.W, "numPr") && x.Parent.Parent.Is(canon.W, "pPr") && x.Parent.Parent.Parent.Is(canon.W, "p") {
 					if v, ok := x.Attr(canon.W, "val"); ok {
-						o.NumRefs = append(o.NumRefs, ref{n, "numId", v})
+						o.NumRefs = append(o.NumRefs, ref{Part: n, Kind: "numId", Val: v})
 					}
 				}
 			case "footnoteReference":
 				if v, ok := x.Attr(canon.W, "id"); ok && n != fnPart {
-					o.FnRefs = append(o.FnRefs, ref{n, "element", v})
+					o.FnRefs = append(o.FnRefs, ref{Part: n, Kind: "element", Val: v})
 				}
 			case "endnoteReference":
 				if v, ok := x.Attr(canon.W, "id"); ok && n != enPart {
-					o.EnRefs = append(o.EnRefs, ref{n, "element", v})
+					o.EnRefs = append(o.EnRefs, ref{Part: n, Kind: "element", Val: v})
 				}
 			case "r":
 				if n == o.Main {
 					txt := x.TextOf(canon.W, "t")
 					if m := fnMarker.FindStringSubmatch(txt); m != nil {
-						o.FnRefs = append(o.FnRefs, ref{n, "marker", m[1]})
+						o.FnRefs = append(o.FnRefs, ref{Part: n, Kind: "marker", Val: m[1]})
 					} else if m := enMarker.FindStringSubmatch(txt); m != nil {
-						o.EnRefs = append(o.EnRefs, ref{n, "marker", m[1]})
+						o.EnRefs = append(o.EnRefs, ref{Part: n, Kind: "marker", Val: m[1]})
 					}
 				}
 			}
@@ -316,6 +323,11 @@ type violation struct {
 	ID     string // the id that does not resolve / the style concerned
 	Kind   string // pStyle|rStyle|tblStyle|numId|abstractNumId|footnote|endnote|style
 	Text   string
+	Sdt    bool
+}
+
+func vio(clause, id, kind, text string) violation {
+	return violation{Clause: clause, ID: id, Kind: kind, Text: text}
 }
 
 // checkRefs evaluates X1-X3 on the observation.
@@ -323,7 +335,7 @@ func checkRefs(o *obs) []violation {
 	var out []violation
 	seen := map[string]bool{}
 	add := func(v violation) {
-		k := v.Clause + "\x00" + v.Kind + "\x00" + v.ID + "\x00" + v.Text
+		k := fmt.Sprint(v.Clause, "\x00", v.Kind, "\x00", v.ID, "\x00", v.Text, "\x00", v.Sdt)
 		if !seen[k] {
 			seen[k] = true
 			out = append(out, v)
@@ -332,20 +344,20 @@ func checkRefs(o *obs) []violation {
 	// X1
 	for _, r := range o.Refs {
 		if !o.HasStyles {
-			add(violation{"C13.X1", r.Val, r.Kind, fmt.Sprintf("%s: w:%s id=%q but the package has no styles part", r.Part, r.Kind, r.Val)})
+			add(vio("C13.X1", r.Val, r.Kind, fmt.Sprintf("%s: w:%s id=%q but the package has no styles part", r.Part, r.Kind, r.Val)))
 			continue
 		}
 		if o.StylesErr != "" {
-			add(violation{"C13.X1", r.Val, r.Kind, fmt.Sprintf("%s: w:%s id=%q but the styles part does not parse: %s", r.Part, r.Kind, r.Val, o.StylesErr)})
+			add(vio("C13.X1", r.Val, r.Kind, fmt.Sprintf("%s: w:%s id=%q but the styles part does not parse: %s", r.Part, r.Kind, r.Val, o.StylesErr)))
 			continue
 		}
 		def, ok := o.Styles[r.Val]
 		if !ok {
-			add(violation{"C13.X1", r.Val, r.Kind, fmt.Sprintf("%s: w:%s id=%q is not a w:styleId of %s", r.Part, r.Kind, r.Val, o.StylesPart)})
+			add(violation{Clause: "C13.X1", ID: r.Val, Kind: r.Kind, Sdt: r.Sdt, Text: fmt.Sprintf("%s: w:%s id=%q is not a w:styleId of %s", r.Part, r.Kind, r.Val, o.StylesPart)})
 			continue
 		}
 		if def.Type != kindType[r.Kind] {
-			add(violation{"C13.X1.type", r.Val, r.Kind, fmt.Sprintf("%s: w:%s id=%q is defined with w:type=%q, not %q", r.Part, r.Kind, r.Val, def.Type, kindType[r.Kind])})
+			add(vio("C13.X1.type", r.Val, r.Kind, fmt.Sprintf("%s: w:%s id=%q is defined with w:type=%q, not %q", r.Part, r.Kind, r.Val, def.Type, kindType[r.Kind])))
 		}
 	}
 	// X2
@@ -354,25 +366,25 @@ func checkRefs(o *obs) []violation {
 			continue
 		}
 		if !o.HasNumbering {
-			add(violation{"C13.X2", r.Val, "numId", fmt.Sprintf("%s: w:numId id=%q but the package has no numbering part", r.Part, r.Val)})
+			add(vio("C13.X2", r.Val, "numId", fmt.Sprintf("%s: w:numId id=%q but the package has no numbering part", r.Part, r.Val)))
 			continue
 		}
 		if o.NumberingErr != "" {
-			add(violation{"C13.X2", r.Val, "numId", fmt.Sprintf("%s: w:numId id=%q but the numbering part does not parse: %s", r.Part, r.Val, o.NumberingErr)})
+			add(vio("C13.X2", r.Val, "numId", fmt.Sprintf("%s: w:numId id=%q but the numbering part does not parse: %s", r.Part, r.Val, o.NumberingErr)))
 			continue
 		}
 		if !o.NumberingRel {
-			add(violation{"C13.X2.rel", "", "numbering", fmt.Sprintf("list paragraphs use w:numId but no numbering relationship of %s resolves to a part (numbering part found at %q)", o.Main, o.NumberingPart)})
+			add(vio("C13.X2.rel", "", "numbering", fmt.Sprintf("list paragraphs use w:numId but no numbering relationship of %s resolves to a part (numbering part found at %q)", o.Main, o.NumberingPart)))
 		}
 		abs, ok := o.Nums[r.Val]
 		if !ok {
-			add(violation{"C13.X2", r.Val, "numId", fmt.Sprintf("%s: w:numId id=%q is not a w:num of %s", r.Part, r.Val, o.NumberingPart)})
+			add(vio("C13.X2", r.Val, "numId", fmt.Sprintf("%s: w:numId id=%q is not a w:num of %s", r.Part, r.Val, o.NumberingPart)))
 			continue
 		}
 		if abs == "" {
-			add(violation{"C13.X2.abstract", r.Val, "abstractNumId", fmt.Sprintf("w:num %q of %s has no w:abstractNumId", r.Val, o.NumberingPart)})
+			add(vio("C13.X2.abstract", r.Val, "abstractNumId", fmt.Sprintf("w:num %q of %s has no w:abstractNumId", r.Val, o.NumberingPart)))
 		} else if !o.Abstracts[abs[1:]] {
-			add(violation{"C13.X2.abstract", r.Val, "abstractNumId", fmt.Sprintf("w:num %q points to w:abstractNum %q which %s does not define", r.Val, abs[1:], o.NumberingPart)})
+			add(vio("C13.X2.abstract", r.Val, "abstractNumId", fmt.Sprintf("w:num %q points to w:abstractNum %q which %s does not define", r.Val, abs[1:], o.NumberingPart)))
 		}
 	}
 	// X3
@@ -380,11 +392,11 @@ func checkRefs(o *obs) []violation {
 		for _, r := range refs {
 			switch {
 			case !has:
-				add(violation{"C13.X3", r.Val, what, fmt.Sprintf("%s: %s reference (%s) id=%q but the package has no %ss part", r.Part, what, r.Kind, r.Val, what)})
+				add(vio("C13.X3", r.Val, what, fmt.Sprintf("%s: %s reference (%s) id=%q but the package has no %ss part", r.Part, what, r.Kind, r.Val, what)))
 			case perr != "":
-				add(violation{"C13.X3", r.Val, what, fmt.Sprintf("%s: %s reference (%s) id=%q but the %ss part does not parse: %s", r.Part, what, r.Kind, r.Val, what, perr)})
+				add(vio("C13.X3", r.Val, what, fmt.Sprintf("%s: %s reference (%s) id=%q but the %ss part does not parse: %s", r.Part, what, r.Kind, r.Val, what, perr)))
 			case !defs[r.Val]:
-				add(violation{"C13.X3", r.Val, what, fmt.Sprintf("%s: %s reference (%s) id=%q is not defined in the %ss part (defined: %s)", r.Part, what, r.Kind, r.Val, what, keys(defs))})
+				add(vio("C13.X3", r.Val, what, fmt.Sprintf("%s: %s reference (%s) id=%q is not defined in the %ss part (defined: %s)", r.Part, what, r.Kind, r.Val, what, keys(defs))))
 			}
 		}
 	}
@@ -415,12 +427,12 @@ func checkStyles(o *obs, want map[string]map[string]string) []violation {
 	sort.Strings(ids)
 	for _, id := range ids {
 		if !o.HasStyles || o.StylesErr != "" {
-			out = append(out, violation{"C13.X4", id, "style", fmt.Sprintf("style id=%q was set through the style API but the package has no readable styles part", id)})
+			out = append(out, vio("C13.X4", id, "style", fmt.Sprintf("style id=%q was set through the style API but the package has no readable styles part", id)))
 			continue
 		}
 		def, ok := o.Styles[id]
 		if !ok {
-			out = append(out, violation{"C13.X4", id, "style", fmt.Sprintf("style id=%q was created/changed through the style API before this save but is not in %s", id, o.StylesPart)})
+			out = append(out, vio("C13.X4", id, "style", fmt.Sprintf("style id=%q was created/changed through the style API before this save but is not in %s", id, o.StylesPart)))
 			continue
 		}
 		fs := make([]string, 0, len(want[id]))
@@ -433,11 +445,11 @@ func checkStyles(o *obs, want map[string]map[string]string) []violation {
 			g, has := def.Fields[f]
 			switch {
 			case w == absent && has:
-				out = append(out, violation{"C13.X4.attr", id, "style", fmt.Sprintf("style id=%q field %s: the styles part has %q, the style as last set through the API has none", id, f, g)})
+				out = append(out, vio("C13.X4.attr", id, "style", fmt.Sprintf("style id=%q field %s: the styles part has %q, the style as last set through the API has none", id, f, g)))
 			case w != absent && !has:
-				out = append(out, violation{"C13.X4.attr", id, "style", fmt.Sprintf("style id=%q field %s: the styles part has none, the style as last set through the API has %q", id, f, w)})
+				out = append(out, vio("C13.X4.attr", id, "style", fmt.Sprintf("style id=%q field %s: the styles part has none, the style as last set through the API has %q", id, f, w)))
 			case w != absent && g != w:
-				out = append(out, violation{"C13.X4.attr", id, "style", fmt.Sprintf("style id=%q field %s: the styles part has %q, the style as last set through the API has %q", id, f, g, w)})
+				out = append(out, vio("C13.X4.attr", id, "style", fmt.Sprintf("style id=%q field %s: the styles part has %q, the style as last set through the API has %q", id, f, g, w)))
 			}
 		}
 	}
